@@ -21,7 +21,7 @@ EXPLANATION = (
     "report diff = value - bound and violation = max(lower - value, value - upper, 0), the bound group to be present whenever any bound is "
     "finite, every stored array to be a fresh read-only copy; transform_from_optimizer to apply the transform's difference maps and recompute "
     "the violations; _violates_constraint(r, tol) <=> some violation > tol. The code is element-wise apart from A.x (a fold), so the proof is "
-    "complete per enumerated shape (<= 2 variables, <= 2 linear rows, <= 2 non-linear rows) with all values symbolic."
+    "complete per enumerated shape (<= 2 variables, <= 2 linear rows, <= 2 non-linear rows; 3 each and all groups together in the thorough tier) with all values symbolic."
 )
 ASSUMPTIONS = [
     "values, coefficients and finite bounds are finite reals (not NaN); infinite bounds are -inf below / +inf above",
@@ -265,7 +265,7 @@ MANIFEST = {
     "category": "proof",
     "text": "Deductive: post-conditions from the statement of C13 (diff = value - bound, violation = max(lower - value, value - upper, 0), presence of "
             "each group, read-only copies, back-transformation, feasibility <=> no violation above the tolerance) discharged by z3 on the real bodies "
-            "for all real values and every finite/infinite bound kind; complete per enumerated shape (<= 2 entries per group).",
+            "for all real values and every finite/infinite bound kind; complete per enumerated shape (<= 2 entries per group, 3 in the thorough tier).",
     "note": "floats as extended reals; shapes enumerated (the code is element-wise except A.x); transform interfaces assumed to be positive scalings; the way the tracker uses _violates_constraint is C12",
     "technique": "contract-based deductive verification: symbolic execution of the real source under sidecar contracts, VCs discharged by z3/cvc5; bounded run-time contract checking as stand-in",
 }
